@@ -19,6 +19,16 @@ from mc.engine import Res, Stratum
 from mc.env import RecordingCache, RecordingObjective, ScriptedCallback
 
 ID = 'C06'
+REGISTERED = True
+TECHNIQUE = ('deviation-bounded exhaustive environment/fault enumeration of the real teneva.cross '
+             '(every budget, None at every call, callback at every sweep, thresholds at every sweep, '
+             'pairs of deviations) against a shadow accounting model')
+LEVEL_TEXT = ('every single deviation (thorough: every pair) from the default environment is executed on the '
+              'real implementation for every base configuration of a finite catalogue and compared with a '
+              'ten-line shadow model of the budget/stop accounting; this is the interruption-at-every-point '
+              'quantifier of the property, which no sampled test reaches')
+LEVEL_NOTE = ('bounded: d <= 5, mode sizes <= 4, ranks <= 3, sweep horizon 2-3, deviation bound 1 (quick) / 2 '
+              '(thorough); data values from one generic pattern per seed plus the zero function; NumPy/SciPy trusted')
 LEVEL = 'fault_enumeration'
 RULE = ('base configurations = product(shape, target rank/zero function, initial rank, '
         '(dr_min,dr_max), cache on/off, sweep horizon); for each, EVERY budget m in 1..M+1, '
